@@ -416,18 +416,24 @@ def w_ops(ctx, rng, i):
     elif op in ("rescale", "rescale_per_axis", "resize", "rescale_to_diagonal", "rescale_to_pointcloud", "rescale_landmarks_to_diagonal_range", "pyramid", "gaussian_pyramid", "zoom"):
         lmc = add_landmarks(rng, src, region=(S * 0.3, S * 0.7) if op in ("gaussian_pyramid", "pyramid") else None)
         rnd = ["ceil", "floor", "round"][rng.integers(0, 3)]
+        # the documented spline order of the resampling (coordinate images are ramps: every order reproduces them away from
+        # the border, where the higher-order filters ring a little)
+        so = int([1, 1, 2, 3][rng.integers(0, 4)]) if (op in ("rescale", "rescale_per_axis", "resize", "zoom") and dtype == np.float64 and cls != "BooleanImage") else 1
+        okw = {} if so == 1 else {"order": so}
+        if so > 1:
+            tol, margin = 0.05, 4.0
         if op == "rescale":
             s = float(rng.uniform(0.3, 3.0))
-            opts = {"scale": round(s, 2), "round": rnd}
-            results.append(call(src.rescale, rt, s, round=rnd))
+            opts = {"scale": round(s, 2), "round": rnd, "order": so}
+            results.append(call(src.rescale, rt, s, round=rnd, **okw))
         elif op == "rescale_per_axis":
             s = rng.uniform(0.4, 2.5, d)
-            opts = {"round": rnd, "per_axis": True}
-            results.append(call(src.rescale, rt, s if rng.random() < 0.5 else list(s), round=rnd))
+            opts = {"round": rnd, "per_axis": True, "order": so}
+            results.append(call(src.rescale, rt, s if rng.random() < 0.5 else list(s), round=rnd, **okw))
         elif op == "resize":
             ns = tuple(int(v) for v in rng.integers(max(4, base // 2), base + 15, d))
-            opts = {"shape_changes": [int(a != b_) for a, b_ in zip(ns, shp)]}
-            results.append(call(src.resize, rt, ns))
+            opts = {"shape_changes": [int(a != b_) for a, b_ in zip(ns, shp)], "order": so}
+            results.append(call(src.resize, rt, ns, **okw))
         elif op == "rescale_to_diagonal":
             dg = float(src.diagonal() * rng.uniform(0.4, 2.2))
             opts = {"round": rnd}
@@ -442,8 +448,8 @@ def w_ops(ctx, rng, i):
             results.append(call(src.rescale_landmarks_to_diagonal_range, rt, rngd, group="g0", round=rnd))
         elif op == "zoom":
             z = float(rng.uniform(0.5, 2.5))
-            opts = {"zoom_in": z > 1}
-            results.append(call(src.zoom, rt, z))
+            opts = {"zoom_in": z > 1, "order": so}
+            results.append(call(src.zoom, rt, z, **okw))
         else:
             nl = int(rng.integers(2, 4 if d == 2 else 3))
             ds = float(rng.uniform(1.3, 2.0))
